@@ -27,6 +27,19 @@ CHECKS = {
     "loaded for the member without initialiser equals the TypeScript emit (previous constant + 1 in doubles), forward and reverse stores "
     "are emitted for both members in order, and compilation never panics. EnumData (value.rs) is unreachable from compiled programs and is "
     "not the kernel. Namespaces, parameter properties, computed/string/const/merged enums are outside the claim.")),
+ 'C05': dict(design='section 3, C05', text=(
+    "Kernel claim: compiler-side panic freedom at width boundaries. Every function of src/compiler whose MIR narrows a count to u8/u16 "
+    "(array literals, call arguments, template literals, tagged templates, arrow/function/constructor parameter lists, array patterns) is "
+    "executed symbolically with AST vector lengths as unconstrained usize (loops abstracted to one arbitrary iteration, other Compiler "
+    "methods havoc'd): no feasible arithmetic panic and no silent truncation for ANY construct size; compile_enum_declaration never "
+    "panics for any numeric literal. The parser (recursion depth, speculative re-parsing), most of the lexer and 'bounded work' are "
+    "outside the claim.")),
+ 'C20': dict(design='section 3, C20', text=(
+    "Kernel claim: source-map and stack-trace kernels. (a) For every sequence of up to 4 (thorough 6) BytecodeBuilder set_span/emit "
+    "operations with symbolic spans and every instruction index, finish + BytecodeChunk::get_source_location returns the span current at "
+    "emission (same start; line/column of the first span of its run), None only before any span. (c) BytecodeVM::build_stack_trace with up "
+    "to 2 (3) trampoline frames looks up ip-1 in each frame's own chunk, innermost first, and emits exactly the frames whose lookup "
+    "succeeds with that lookup's line/column. Whether the compiler sets the right span, parser/lexer spans and function names are outside.")),
  'C08': dict(design='section 3, C08', text=(
     "Kernel claim: the ledger hand-over step. Interpreter::process_vm_result (every VmResult variant) and Interpreter::step entered with "
     "no active VM are executed symbolically on a lazily materialised Interpreter whose pending/cancelled order lists (any length), "
